@@ -11,6 +11,14 @@ TECH_E1 = "bounded symbolic execution of the real code (CrossHair 0.0.110 + z3),
 
 # property -> (level text, level note, technique, design ref)
 CLAIMS = {
+    "C02": ("On stack S as client two concurrent requests (types / destinations by symbolic index) are followed by event sequences "
+            "chosen by symbolic index over a 58-entry catalogue (responses with token x source x type x MID variations, Reset, "
+            "empty ACK, duplicate datagram, transport error per endpoint, next timer, shutdown, a third request submitted after k "
+            "loop steps of a running shutdown); a monitor written from the statement decides delivery target, required "
+            "Reset/ACK replies and that every result completes exactly once with a Message or an aiocoap Error. next_token is "
+            "translated to z3 bit-vectors: the token is an invertible function of the 64-bit counter, so outstanding tokens differ.",
+            "fake datagram transport, SimLoop, integer tuning; 2 requests + 2 (3) events + flush by shutdown; endpoint identity = (address, port)",
+            TECH_E1 + "; AST->z3 bit-vector translation of TokenManager.next_token", "DESIGN.md 5 C02"),
     "C03": ("Every value of ACK_TIMEOUT (1..1e5 ticks), of the first time-out draw within its contract, of the arrival instant "
             "of an ACK/RST (any instant relative to all timers) and of the reply kind is covered symbolically on the real "
             "MessageManager for each enumerated (MAX_RETRANSMIT, ACK_RANDOM_FACTOR); copies, spacing, give-up instant/class "
